@@ -697,6 +697,37 @@ impl ConnH {
                     _ => "nohandle".into(),
                 }
             }
+            ("cn_reqc", [eos, method, path, extra]) => {
+                // a request through a fresh clone of the SendRequest handle, dropped right afterwards
+                let mut rb = http::Request::builder().method(*method).uri(format!("http://example.com{}", path));
+                if *extra != "-" {
+                    for kv in extra.split(',') {
+                        let (k, v) = kv.split_once('=')?;
+                        rb = rb.header(String::from_utf8(unhex(k)?).ok()?, unhex(v)?);
+                    }
+                }
+                let req = match rb.body(()) {
+                    Ok(r) => r,
+                    Err(_) => return Some(self.finish("badreq".into())),
+                };
+                match &mut self.kind {
+                    ConnKind::Client(_, Some(sr), _) => {
+                        let mut cl = sr.clone();
+                        let r = cl.send_request(req, *eos == "1");
+                        let out = match r {
+                            Ok((rf, ss)) => {
+                                let sid = ss.stream_id().as_u32();
+                                self.slots.push(Slot { sid, send: Some(ss), resp_fut: Some(rf), ..Default::default() });
+                                format!("ok:{}:{}", self.slots.len() - 1, sid)
+                            }
+                            Err(e) => format!("err:{}", perr(&e)),
+                        };
+                        drop(cl);
+                        out
+                    }
+                    _ => "nohandle".into(),
+                }
+            }
             ("cn_ready", []) => {
                 let w = self.waker("q");
                 let mut cx = Context::from_waker(&w);
